@@ -219,6 +219,23 @@ def d_concat(ck, mod):
     ld = [c2 for c2 in calls_in(fw) if call_name(c2) == 'md.load']
     ck.check(len(ld) == 1 and u(ld[0].args[0]) == 'filename' and any(k.arg is None and u(k.value) == 'load_kwargs' for k in ld[0].keywords), rule + '.window', mod, ld[0] if ld else fw,
              '_load_to_position', u(ld[0]) if ld else 'md.load', 'file loaded with its own kwargs (stride, atom selection)', 'md.load(filename, **load_kwargs) expected')
+    # single-frame files: a length of 1 is inserted at the FILE index
+    ins = [c2 for c2 in calls_in(fn) if u(c2.func) == 'lengths.insert']
+    for c2 in ins:
+        loop = mod.parent.get(fi.stmt(c2))
+        while loop is not None and not isinstance(loop, ast.For):
+            loop = mod.parent.get(loop)
+        ok = loop is not None and isinstance(loop.iter, ast.Call) and call_name(loop.iter) == 'enumerate' and \
+            len(loop.iter.args) == 1 and u(loop.iter.args[0]) == 'args' and isinstance(loop.target, ast.Tuple) and \
+            u(c2.args[0]) == u(loop.target.elts[0]) and const_value(c2.args[1]) == 1
+        g = mod.parent.get(fi.stmt(c2))
+        ok = ok and isinstance(g, ast.If) and u(g.test) == "'frame' in %s" % u(loop.target.elts[1])
+        ck.check(ok, rule + '.frame-insert', mod, c2, 'load_as_concatenated', 'for %s in %s: ... %s' % (
+            u(loop.target) if loop is not None else '?', u(loop.iter) if loop is not None else '?', u(c2)),
+                 'the length 1 of a single-frame file is inserted at that file\'s index in the file list',
+                 'lengths.insert(i, 1) must use the index of the file in `args` (enumerate(args) with the frame test inside the '
+                 'loop): enumerating only the frame entries gives positions in the filtered list, so the 1s land at the front and '
+                 'every offset after them is wrong')
     # sounding uses each file's own stride
     sm = [c2 for c2 in calls_in(fn) if isinstance(c2.func, ast.Attribute) and c2.func.attr == 'starmap']
     ok = len(sm) == 1 and "kw.get('stride', 1)" in u(sm[0]) and 'zip(filenames, args)' in u(sm[0])
